@@ -12,12 +12,12 @@ cp /repo/Cargo.lock "$W"/
 trap 'git -C /repo worktree remove --force "$W" 2>/dev/null' EXIT
 cd "$W" || exit 2
 cp "$SRC/demo.rs" tests/seed_demo.rs
-r1=$(cargo test --offline --test seed_demo 2>&1 | grep -E "^test result" | tail -1)
+r1=$(cargo test --offline ${FEATURES:+--features $FEATURES} --test seed_demo 2>&1 | grep -E "^test result" | tail -1)
 echo "demo on HEAD:        $r1"
 rm tests/seed_demo.rs
 if ! git apply "$SRC/patch.diff"; then echo "PATCH DOES NOT APPLY"; exit 1; fi
 r2=$(cargo test --workspace --no-fail-fast --offline 2>&1 | grep -E "^test result" | awk '{p+=$4; f+=$6} END {print p" passed, "f" failed"}')
 echo "suite with patch:    $r2"
 cp "$SRC/demo.rs" tests/seed_demo.rs
-r3=$(cargo test --offline --test seed_demo 2>&1 | grep -E "^test result|panicked" | head -3 | tr '\n' ' ' | cut -c1-300)
+r3=$(cargo test --offline ${FEATURES:+--features $FEATURES} --test seed_demo 2>&1 | grep -E "^test result|panicked" | head -3 | tr '\n' ' ' | cut -c1-300)
 echo "demo with patch:     $r3"
